@@ -22,8 +22,9 @@ def body(run):
     out, meta = run.drive("c05")
     run.absorb(meta)
     run.validate(out, meta)
-    run.selftest(out, meta, gen="rand", field="bytes")
-    run.selftest(out, meta, gen="frame", field="lic", remove_match={"ev": "Recv"})
+    # Enc events are independent of each other (the writer is a function of the pack): removing one is not an error
+    run.selftest(out, meta, gen="retag", field="bytes", removed=False)
+    run.selftest(out, meta, gen="frame", field="bytes", remove_match={"ev": "Recv"})
     run.assumptions += [
         "a pack is projected from the values the generator drew (encoding/binary, math.Float32bits only), never read back through golib; exceptions: TagCountPack.GetTagHash / LogSinkPack.TagHash are read with the public getter / field (information only for tag-count: the specification derives the hash from the tags)",
         "the received frame is taken off the TCP stream by the harness the way a collector does (22 header bytes, then as many bytes as the 4-byte length field says) with the standard library; bytes behind the last frame are read until end of stream after the client closed",
